@@ -315,6 +315,14 @@ def c_with_method():
   return C
 
 
+def c_with_method_called_first():
+  """The method is registered on its own AND its configurable version is used before the class is registered."""
+  C = c_with_method()
+  gin.get_configurable(C.meth)(C())
+  gin.get_configurable(C.meth)(C(), y='early')
+  return C
+
+
 def c_with_renamed_method():
   class C:
     def __init__(self, a='da', x='dx'):
@@ -335,7 +343,8 @@ CLASSES = {'__init__': c_init, '__new__': c_new, 'both': c_both, 'neither': c_ne
            'metaclass+__new__': c_meta_new, '__slots__': c_slots, 'namedtuple': c_namedtuple, 'abc': c_abc,
            'dataclass': c_dataclass, 'generic': c_generic, 'with_registered_method': c_with_method,
            'falsy_class': c_falsy, 'param_named_new_cls': c_param_new_cls,
-           'with_renamed_registered_method': c_with_renamed_method}
+           'with_renamed_registered_method': c_with_renamed_method,
+           'with_registered_method_called_first': c_with_method_called_first}
 APIS = ['configurable', 'register', 'external_configurable']
 FORMS = ['bare', 'name', 'name_module']
 SCOPES = [None, 's']
@@ -497,7 +506,7 @@ def case_class(shape, api, form, scope, res):
   res.case(tuple(map(str, desc)), True)
   C = CLASSES[shape]()
   base_name = C.__name__ if form == 'bare' else fresh('regc')
-  has_methods = shape in ('with_registered_method', 'with_renamed_registered_method')
+  has_methods = shape in ('with_registered_method', 'with_renamed_registered_method', 'with_registered_method_called_first')
   m_attr, m_reg = getattr(C, '_c13_method', ('meth', 'meth'))
   before_vars = dict(vars(C))       # taken BEFORE any pickling (copyreg adds __slotnames__)
   meta_before = (C.__name__, C.__module__, C.__doc__, C.__qualname__)
